@@ -130,11 +130,11 @@ CHECKS["C05"] = dict(
 
 CHECKS["C12"] = dict(
     category="proof",
-    text="The property's domain is a finite matrix; Gen/AdapterMatrix.lean is REGENERATED on every run by evaluation: for each of 14 exporters x 52 measure cells (7 aggregation types x filtered/plain x display format x column/product expression) the harness exports a layer, parses it back with the same adapter, "
+    text="The property's domain is a finite matrix; Gen/AdapterMatrix.lean is REGENERATED on every run by evaluation: for each of 14 exporters x (52 measure cells: 7 aggregation types x filtered/plain x display format x column/product expression; 11 structure cells: keys, qualified table, sql model, relationship types, time granularity, dimension types, segment) the harness exports a layer, parses it back with the same adapter, "
          "executes the surviving metric grouped by a dimension on DuckDB against both graphs and classifies the cell (same / absent / unusable / rejected / changed) and whether a second round trip is a fixed point. Lean 4 obligations (decide over the whole table): no cell outside the recorded findings is `changed` (C12_no_silent_change), "
-         "every such cell is a fixed point (C12_second_roundtrip_fixed), the matrix is complete (14 x 52), the recorded cells still fail (not stale).",
+         "every such cell is a fixed point (C12_second_roundtrip_fixed), the matrix is complete (14 x 63), the recorded cells still fail (not stale).",
     design_ref="DESIGN.md §4 C12",
-    note="Translator-by-evaluation: the theorem is about the observed table, so the trusted base includes the cell evaluator (export/parse/execute). Dimension types, keys, relationships and segments enter through the fixed-point projection only. 184 cells in 12 adapters violate the property today and are recorded as F36-* (not repaired: per-adapter format work).",
+    note="Translator-by-evaluation: the theorem is about the observed table, so the trusted base includes the cell evaluator (export/parse/execute). `lost` (an attribute falls back to its default where the format may have no syntax) is allowed and counted. 193 cells in 12 adapters violate the property today and are recorded as F36-* (not repaired: per-adapter format work).",
     technique="translator by evaluation over the finite exporter x feature matrix + Lean 4 decide over the regenerated table + execution of both graphs on DuckDB",
 )
 
